@@ -4,11 +4,12 @@ import Q1t.Spec.CQ1
 import Q1t.Spec.Unitaries
 import Q1t.Spec.Born
 /-!
-C12, per-gate semantic obligations over the exact field ℚ(ζ₈) (kernel-checked, `decide +kernel`): for every
-constant library gate whose translation consists of exactly representable instructions, at every placement on
-`k = nr_affected_bits` qubits, the text THE MODEL WRITES (through the generated table) parses with `Spec/CQ1`, is
-well formed, and maps every basis state to `phase ·` (documented unitary embedded on the placement) of it — plain, and
-under a one-bit condition (applied iff the bit is 1) for the single-line translations.
+C12, per-gate semantic obligations over the exact field ℚ(ζ₈): the checkers.  For a constant library gate whose
+translation consists of exactly representable instructions, and a placement on `k = nr_affected_bits` qubits:
+the text THE MODEL WRITES (through the generated table) parses with `Spec/CQ1`, is well formed, and maps every basis
+state to `phase ·` (documented unitary embedded on the placement) of it (`plainOK`); under a one-bit condition the
+text is applied iff the bit is 1 (`condOK`).  The kernel-checked instances (`decide +kernel`) are in
+`CQasmGates1/2/3` (split so that no single check takes long).
 -/
 namespace Q1t.Proofs.CQasm
 open Q1t Q1t.CQ
@@ -45,10 +46,10 @@ def plainOK (name : String) (phase : Q8) (bits : List Nat) : Bool :=
   | .ok text, some term =>
     match CQ1.parseFragment text with
     | .ok subs =>
+      let U : LMat Q8 := CQ1.scale phase (Spec.embed k bits (Spec.specMatrix term))
       (CQ1.subsWf k subs).isNone &&
-      (List.range (2 ^ k)).all fun j =>
-        let U : LMat Q8 := CQ1.scale phase (Spec.embed k bits (Spec.specMatrix term))
-        CQ1.subsSem q8Sem k nzQ8 subs [(basisVec k j, 5)] == some [(LMat.mulVec U (basisVec k j), 5)]
+      CQ1.subsSem q8Sem k nzQ8 subs ((List.range (2 ^ k)).map fun j => (basisVec k j, 5)) ==
+        some ((List.range (2 ^ k)).map fun j => (LMat.mulVec U (basisVec k j), 5))
     | .error _ => false
   | _, _ => false
 
@@ -59,38 +60,21 @@ def condOK (name : String) (phase : Q8) (bits : List Nat) : Bool :=
   | .ok text, some term =>
     match CQ1.parseFragment text with
     | .ok subs =>
+      let U : LMat Q8 := CQ1.scale phase (Spec.embed k bits (Spec.specMatrix term))
       (CQ1.subsWf k subs).isNone &&
-      (List.range (2 ^ k)).all fun j =>
-        let U : LMat Q8 := CQ1.scale phase (Spec.embed k bits (Spec.specMatrix term))
-        CQ1.subsSem q8Sem k nzQ8 subs [(basisVec k j, 1)] == some [(LMat.mulVec U (basisVec k j), 1)] &&
-        CQ1.subsSem q8Sem k nzQ8 subs [(basisVec k j, 2)] == some [(basisVec k j, 2)]
+      CQ1.subsSem q8Sem k nzQ8 subs ((List.range (2 ^ k)).map fun j => (basisVec k j, 1)) ==
+        some ((List.range (2 ^ k)).map fun j => (LMat.mulVec U (basisVec k j), 1)) &&
+      CQ1.subsSem q8Sem k nzQ8 subs ((List.range (2 ^ k)).map fun j => (basisVec k j, 2)) ==
+        some ((List.range (2 ^ k)).map fun j => (basisVec k j, 2))
     | .error _ => false
   | _, _ => false
 
-/-- constant gates with a single-line exact translation, and the global phase of the translation -/
-def singleLineConst : List (String × Q8) :=
+/-- one-qubit constant gates and the global phase of their (single-line) translation -/
+def const1 : List (String × Q8) :=
   [("H", 1), ("X", 1), ("Y", 1), ("Z", 1), ("S", 1), ("Sdg", 1), ("T", 1), ("Tdg", 1), ("I", 1),
-   ("V", Amp.conj Empty (Amp.zeta8 Empty)), ("Vdg", Amp.zeta8 Empty),
-   ("CX", 1), ("CZ", 1), ("Swap", 1), ("CS", 1), ("CT", 1), ("CCX", 1)]
+   ("V", Amp.conj Empty (Amp.zeta8 Empty)), ("Vdg", Amp.zeta8 Empty)]
 
-/-- constant gates with a multi-line exact translation -/
-def multiLineConst : List (String × Q8) := [("CY", 1), ("CCZ", 1)]
-
-theorem single_line_const_plain :
-    ∀ e ∈ singleLineConst, ∀ bits ∈ allPlacements (libBits e.1), plainOK e.1 e.2 bits = true := by
-  decide +kernel
-
-theorem single_line_const_conditional :
-    ∀ e ∈ singleLineConst, ∀ bits ∈ allPlacements (libBits e.1), condOK e.1 e.2 bits = true := by
-  decide +kernel
-
-theorem multi_line_const_plain :
-    ∀ e ∈ multiLineConst, ∀ bits ∈ allPlacements (libBits e.1), plainOK e.1 e.2 bits = true := by
-  decide +kernel
-
-/-- the multi-line translations are NOT conditioned as a whole (only their first line is prefixed) -/
-theorem multi_line_const_conditional_fails :
-    ∀ e ∈ multiLineConst, ∀ bits ∈ allPlacements (libBits e.1), condOK e.1 e.2 bits = false := by
-  decide +kernel
+/-- two-qubit constant gates with a single-line exact translation -/
+def const2 : List (String × Q8) := [("CX", 1), ("CZ", 1), ("Swap", 1), ("CS", 1), ("CT", 1)]
 
 end Q1t.Proofs.CQasm
